@@ -21,7 +21,9 @@ VARIABLES i, tr, log, hr, he, tl, cb, cov, stor, crashed
 vars == <<i, tr, log, hr, he, tl, cb, cov, stor, crashed>>
 
 Ev == Trace[i]
-IsC(k) == k \in {"M", "O"}
+IsC(k) == k \in {"M", "O", "A"}
+\* "A": a pts increment caused by an own request (messages.affected*): it occupies a position, there is nothing to deliver
+Deliverable(k) == k # "A"
 IsQ(k) == k \in {"Q", "E"}
 IsCh(k) == k \in {"CM", "CO"}
 CPos(n) == Cardinality({j \in 1..n : IsC(log[j])})
@@ -55,13 +57,13 @@ Handler ==
            /\ \A x \in ids : x \notin hr
            /\ Cardinality(ids) = Cardinality({k \in 1..Len(Ev.ids) : Ev.ids[k] # 0})
            /\ (Ev.via = "push") => \A x \in ids : \A j \in 1..(x - 1) :
-                   SameSeq(x, j) => (j \in hr \/ j \in ids \/ Covered(j))
+                   (SameSeq(x, j) /\ Deliverable(log[j])) => (j \in hr \/ j \in ids \/ Covered(j))
      /\ hr' = hr \cup ids /\ he' = he \cup ids
   /\ UNCHANGED <<tr, log, tl, cb, cov, stor, crashed>>
 
 PersistOK(s, base) ==
   \A j \in 1..Len(log) :
-     /\ (IsC(log[j]) /\ CPos(j) <= s.pts) => (j \in he \/ tl.c)
+     /\ (IsC(log[j]) /\ Deliverable(log[j]) /\ CPos(j) <= s.pts) => (j \in he \/ tl.c)
      /\ (IsQ(log[j]) /\ QPos(j) <= s.qts) => (j \in he \/ tl.c)
      /\ (IsCh(log[j]) /\ s.ch # -1 /\ ChPos(j) <= s.ch /\ ChPos(j) > base) => (j \in he \/ tl.ch)
 
@@ -99,7 +101,7 @@ Restart ==
 
 NoLoss(n, tracked) ==
   \A j \in 1..n :
-     \/ j \in he
+     \/ j \in he \/ ~Deliverable(log[j])
      \/ (IsCh(log[j]) /\ (~tracked \/ ChPos(j) <= cb \/ tl.ch))
      \/ (~IsCh(log[j]) /\ tl.c)
 
